@@ -39,10 +39,18 @@ def dec_arr(a, cplx):
     return np.array([np.nan if v is None else v for v in a], dtype=np.float64)
 
 
-def gen_value(rng, cplx):
+TINY = [1e-8, 9.9e-9, 1e-9, 1e-12, 1e-30, 1e-100, 1e-300, 5e-324]
+
+
+def gen_value(rng, cplx, tiny=False):
     v = float(rng.integers(-6, 7)) * float(2.0 ** rng.integers(-2, 2))
     if v == 0.0:
         v = 1.0
+    if tiny and rng.random() < 0.35:
+        # tiny but NON-zero magnitude: must not be treated like an exact zero
+        v = float(rng.choice([-1.0, 1.0])) * float(rng.integers(1, 7)) * TINY[int(rng.integers(0, len(TINY)))]
+        if v == 0.0:
+            v = 5e-324
     if cplx:
         im = float(rng.integers(-4, 5)) * 0.5
         if im != 0.0 and rng.random() < 0.2:
@@ -56,13 +64,14 @@ def gen_case(rng, idx):
     cplx = bool(rng.random() < 0.3)
     nsamp = int(rng.integers(1, 5))
     flavour = ["clean", "zeros", "nans", "both"][idx % 4]
+    tiny = (idx // 4) % 2 == 1          # every second block of four: tiny non-zero entries next to zeros/NaNs
     if kind == "identity":
         keys = {"<None>": int(rng.integers(1, 7))} if rng.random() < 0.5 else {"a": int(rng.integers(1, 6)), "bb": int(rng.integers(1, 4))}
         samples = []
         for _ in range(nsamp):
             s = {}
             for k, n in keys.items():
-                arr = [gen_value(rng, cplx) for _ in range(n)]
+                arr = [gen_value(rng, cplx, tiny) for _ in range(n)]
                 for i in range(n):
                     u = rng.random()
                     if flavour in ("zeros", "both") and u < 0.25:
@@ -84,7 +93,7 @@ def gen_case(rng, idx):
             mask[i] = 0.0
         elif flavour in ("nans", "both") and u > 0.75:
             nanpos.append(i)
-    samples = [{"<None>": [gen_value(rng, cplx) for _ in range(n)]} for _ in range(nsamp)]
+    samples = [{"<None>": [gen_value(rng, cplx, tiny and kind == "identity") for _ in range(n)]} for _ in range(nsamp)]
     return {"kind": kind, "cplx": cplx, "keys": {"<None>": n}, "samples": samples, "d": d, "sig_inv": sig_inv,
             "mask": mask, "nanpos": nanpos}
 
@@ -197,6 +206,9 @@ def classic_term(arrs, o, cplx):
     sc = scale_of(arrs)
     tol = Fraction(1, 10 ** 12) * Fraction(sc) ** 4
     mean = complex(o["mean"])
+    vals = [float(o["rcs"]), mean.real, mean.imag] + [float(np.real(x)) for x in (o["rcs_std"], o["mean_std"]) if x is not None]
+    if not all(np.isfinite(v) for v in vals):
+        return "false"          # the model never reports NaN/inf for the classic diagnostics
     var = None if o["rcs_std"] is None else Fraction(float(o["rcs_std"])) ** 2
     if cplx:
         mvar = "None"
@@ -211,6 +223,8 @@ def jax_term(arrs, o, cplx):
     sc = scale_of(arrs)
     tol = Fraction(1, 10 ** 12) * Fraction(sc) ** 4
     m = o["mean"]
+    if np.isinf(m.real) or np.isinf(m.imag) or np.isinf(o["rcs"]):
+        return "false"
     nan = np.isnan(m.real) or np.isnan(m.imag)
     return "jax_ok %s %s %s %s %s %s %s" % (
         C.cq(tol), C.cbool(cplx), csamples(arrs), "None" if nan else coptq(m.real), "None" if nan else coptq(m.imag),
@@ -279,6 +293,9 @@ CORPUS_BUILTIN = [   # the witnesses of C36_agreement_refuted, replayed on the i
     {"kind": "identity", "cplx": False, "keys": {"<None>": 2}, "samples": [{"<None>": [1.0, 0.0]}]},
     {"kind": "identity", "cplx": False, "keys": {"<None>": 2}, "samples": [{"<None>": [1.0, None]}]},
     {"kind": "identity", "cplx": True, "keys": {"<None>": 1}, "samples": [{"<None>": [[1.0, 1.0]]}]},
+    # tiny but non-zero residuals next to an exact zero and a NaN: only the zero and the NaN are ignored
+    {"kind": "identity", "cplx": False, "keys": {"<None>": 6}, "samples": [{"<None>": [1e-8, 0.0, None, 1e-300, -3e-9, 2.0]},
+                                                                        {"<None>": [5e-324, 0.0, None, 1e-12, 1.0, -1e-30]}]},
 ]
 
 
